@@ -285,7 +285,11 @@ impl VirtualSign<'_> {
                 self.address.0, width, height, kind
             );
 
-            self.sign_type = SignType::from_bytes(data).ok();
+            // The family and ID bytes alone identify a known type, but it only counts as that type if the
+            // size fields in the block agree with it; otherwise a page of the type's size would not fit.
+            self.sign_type = SignType::from_bytes(data)
+                .ok()
+                .filter(|sign_type| sign_type.dimensions() == (width, u32::from(height)));
             match self.sign_type {
                 Some(sign_type) => info!("Vsign {:04X} matches known type: {:?}", self.address.0, sign_type),
                 None => warn!("Please report unknown configuration {:?}", data),
